@@ -1,7 +1,7 @@
 """C06 — dot-bracket / pair-table / strand-table conversions."""
 import json
 from common import prove, ensure_model_runner, run_oracle, run_impl, Err
-from corr import correspond, shrink, disagree_one
+from corr import correspond, shrink, disagree_one, history_witnesses
 from flow import conclude
 import gen_structs as gs
 
@@ -59,9 +59,20 @@ def requests(ctx):
     for s in strs:
         if "x" not in s and s and not gs.is_wf(s) and gs.nonempty_strands(s):
             obj.append(("c03_history", [["+" if c == "+" else "d" for c in s], list(s),
-                                        [["pair_table"], ["is_connected"], ["exterior_domains"], ["get_paired_loc", [0, 0]]]]))
+                                        [["pair_table"], ["is_connected"], ["exterior_domains"], ["exterior_domains"],
+                                         ["enclosed_domains"], ["get_paired_loc", [0, 0]], ["pair_table"], ["enclosed_domains"],
+                                         ["get_loop_index", [0, 0]], ["exterior_domains"]]]))
     rng.shuffle(obj)
-    batches["ComplexS/ill-formed"] = obj[: (3000 if quick else 40000)]
+    obj = obj[: (3000 if quick else 40000)]
+    # ill-formed structures that pass construction (the fast rotation cannot see the imbalance): every access
+    # of every structural view must keep reporting it
+    for s in ["(..", ".x)", "((+)", "(+(+)", "(", ")", "(.+.", ".+)", "((.)", "(+))", "x", ".x.+."]:
+        sq = ["+" if c == "+" else "d" for c in s]
+        for first in (["exterior_domains"], ["enclosed_domains"], ["pair_table"], ["is_connected"], ["get_loop_index", [0, 0]]):
+            obj.append(("c03_history", [sq, list(s), [first, ["exterior_domains"], ["enclosed_domains"], ["exterior_domains"],
+                                                       ["pair_table"], ["is_connected"], ["set_turns", 1], ["enclosed_domains"],
+                                                       ["enclosed_domains"], ["exterior_domains"]]]))
+    batches["ComplexS/ill-formed"] = obj
     return batches, strs, big + bad
 
 
@@ -96,8 +107,9 @@ def run(ctx):
                        "non-trivial = distinct results on which model and implementation agree")
 
     def search(diffs):
+        pre = history_witnesses(diffs)
         cases = []
-        for d in diffs[:4]:
+        for d in [x for x in diffs if x[1][0] != "c03_history"][:4]:
             arg = d[1][1]
             if d[1][0] in ("make_pair_table", "rotate_complex_once"):
                 s = "".join(arg[0] if d[1][0] == "make_pair_table" else arg[1])
@@ -117,7 +129,7 @@ def run(ctx):
             found.append({"key": {"s": f["s"]}, "input": f, "what": f["what"],
                           "snippet": f"from dsdobjects.complex_utils import *; make_pair_table({f['s']!r}, strand_break={f['brk']!r}); "
                                      f"rotate_complex_once([c if c=='+' else 'd' for c in {f['s']!r}], list({f['s']!r}))"})
-        return found
+        return pre + found
 
     conclude(ctx, res, runner, diffs, search)
 
